@@ -10,8 +10,10 @@
 //   oc = 1: the overcommit queue of the same QoS.
 // output:
 //   "Q ncpu oc off_tail off_pool off_head off_pend off_next off_sema sizeof pool0"
+//   "S warmup" (and nothing else) when a single item submitted to an idle global queue did not run within 10 s
 //   "I <id> <runs>" for every item whose run count is not exactly 1 (none expected), "N <items> <sum of runs>"
 //   "B <waiters> <pool_before> <pool_min> <distinct_worker_threads> <elapsed_ms> <finished>"   (mode blocked)
+//   "L <1 if the 25 s budget of a flood / ping-pong run was exhausted>"
 //   then the recorder dump: obj 1 = the queue structure, obj 2 = dpq_thread_mediator from dsema_value on,
 //   obj 0 = every other atomic of the process (offset = absolute address; the check keeps do_next of queued items).
 // harness events: DVU_CALL a=0 (push) b=item id; DVU_RET; DVU_CALLOUT_BEGIN/END a=item id
@@ -27,10 +29,12 @@ static _Atomic long total_runs, next_id;
 static dispatch_queue_t q;
 static dispatch_queue_global_t gq;
 static _Atomic long seen_tids[1024]; static _Atomic int nseen;
+static double deadline; static _Atomic int deadline_hit;   // wall-clock budget of the run: not a verdict, only keeps a broken library from hanging the check
 
 static uint64_t rnd(uint64_t *s) { uint64_t z = (*s += 0x9E3779B97F4A7C15ull); z = (z ^ (z >> 30)) * 0xBF58476D1CE4E5B9ull;
 	z = (z ^ (z >> 27)) * 0x94D049BB133111EBull; return z ^ (z >> 31); }
 static double now_ms(void) { struct timespec ts; clock_gettime(CLOCK_MONOTONIC, &ts); return ts.tv_sec * 1e3 + ts.tv_nsec / 1e6; }
+static int late(void) { if (now_ms() > deadline) { atomic_store(&deadline_hit, 1); return 1; } return 0; }
 static void note_tid(void) {
 	long t = (long)syscall(SYS_gettid); int n = atomic_load(&nseen);
 	for (int i = 0; i < n; i++) if (atomic_load(&seen_tids[i]) == t) return;
@@ -59,6 +63,7 @@ typedef struct { int idx, count; uint64_t rng; } targ_t;
 static void *flooder(void *a) {
 	targ_t *t = (targ_t *)a;
 	for (int i = 0; i < t->count; i++) {
+		if (late()) break;
 		long id = atomic_fetch_add(&next_id, 1); if (id >= MAXITEMS) break;
 		push(id, work);
 		uint64_t r = rnd(&t->rng);
@@ -69,10 +74,11 @@ static void *flooder(void *a) {
 static void *pingponger(void *a) {
 	targ_t *t = (targ_t *)a;
 	for (int i = 0; i < t->count; i++) {
+		if (late()) break;
 		long id = atomic_fetch_add(&next_id, 1); if (id >= MAXITEMS) break;
 		push(id, leaf_item);
 		int spins = 0;
-		while (atomic_load(&runs[id]) == 0) { if (++spins > 50) usleep(20); else sched_yield(); }
+		while (atomic_load(&runs[id]) == 0 && !late()) { if (++spins > 50) usleep(20); else sched_yield(); }
 		uint64_t r = rnd(&t->rng);
 		if ((r & 7) == 0) usleep((useconds_t)((r >> 8) % 150));
 	}
@@ -114,7 +120,9 @@ int main(int argc, char **argv) {
 	// initialise the root queues (lazy) through another global queue
 	_Atomic int warmed = 0;
 	dispatch_async_f(dispatch_get_global_queue(DISPATCH_QUEUE_PRIORITY_HIGH, 0), &warmed, warm);
-	while (!atomic_load(&warmed)) usleep(100);
+	{ double w0 = now_ms();
+	  while (!atomic_load(&warmed) && now_ms() - w0 < 10000) usleep(100);
+	  if (!atomic_load(&warmed)) { printf("S warmup\n"); fflush(stdout); _exit(0); } }   // one item on an idle global queue never ran
 	q = dispatch_get_global_queue(DISPATCH_QUEUE_PRIORITY_LOW, oc ? DISPATCH_QUEUE_OVERCOMMIT : 0);
 	gq = (dispatch_queue_global_t)q;
 	dispatch_pthread_root_queue_context_t pqc = gq->do_ctxt;
@@ -125,6 +133,7 @@ int main(int argc, char **argv) {
 		offsetof(struct dispatch_queue_global_s, dq_items_tail), offsetof(struct dispatch_queue_global_s, dgq_thread_pool_size),
 		offsetof(struct dispatch_queue_global_s, dq_items_head), offsetof(struct dispatch_queue_global_s, dgq_pending),
 		offsetof(struct dispatch_object_s, do_next), off_sema, sizeof *gq, pool0);
+	deadline = now_ms() + 25000;
 	dv_install(seed, permille);
 	dv_track((void *)0, (size_t)-1, 0);
 	dv_track(gq, sizeof *gq, 1);
@@ -138,7 +147,7 @@ int main(int argc, char **argv) {
 				pthread_create(&th[k], NULL, !strcmp(mode, "flood") ? flooder : pingponger, &ta[k]); }
 			for (int k = 0; k < T; k++) pthread_join(th[k], NULL);
 			usleep(20000);
-			wait_all(atomic_load(&next_id), 30000);
+			wait_all(atomic_load(&next_id), 8000);
 			if (idle && phase == 0) usleep(5600000);   // workers time out (5 s), give their slots back and exit
 		}
 		usleep(50000);
@@ -161,6 +170,7 @@ int main(int argc, char **argv) {
 	long n = atomic_load(&next_id), sum = 0;
 	for (long i = 0; i < n && i < MAXITEMS; i++) { int c = atomic_load(&runs[i]); sum += c; if (c != 1) printf("I %ld %d\n", i, c); }
 	printf("N %ld %ld\n", n, sum);
+	printf("L %d\n", atomic_load(&deadline_hit));
 	dv_dump(stdout);
 	fflush(stdout);
 	_exit(0);
